@@ -534,3 +534,10 @@ M("c03-new-links-unchecked-prototype", ["C03"], VM,
 M("c08-function-writes-dropped-again", ["C08"], VM,
   "            else:\n                obj._properties[key_str] = value\n\n    def _delete_property", "            else:\n                pass\n\n    def _delete_property",
   [("C08", "C08-R2", "JSFunction:every-path-writes")])
+
+M("c18-to-number-without-grammar", ["C18", "C04"], VA,
+  "        if not _DECIMAL_LITERAL.match(s):\n            return float(\"nan\")\n", "",
+  [("C04", "C04-R2", "to_number"), ("C18", "C18-R4", "to_number")])
+M("c18-to-string-host-repr", ["C18"], VA,
+  "        return _float_to_string(value)\n", "        return repr(value)\n",
+  [("C18", "C18-R4", "to_string")])
